@@ -670,6 +670,34 @@ theorem step_kind (c : SwapCtx) (s s' : SwapSt) (nai : Nat) (nti : Int) (ntp tgt
         show m2.c = info.constants
         rw [a2]; exact hk
 
+/-- the pieces of a successful swap, with the loop invariant established for the initial loop state -/
+theorem swap_setup (p : PoolD) (ticks : TickMap) (ps : List (Nat × PositionD)) (arrays : List Int) (amount limit : Nat)
+    (isInput aToB : Bool) (now fuel : Nat) (af : Option AfInfo) (u : PostSwap)
+    (hts : 0 < p.ts) (hseq : SeqOK arrays p.ts aToB)
+    (hliq : (p.liq : Int) = sumBy (inRangeLiq p.tick) ps) (tf : TickFacts ticks ps p.ts) (tp : TP p.tick p.price)
+    (hL : p.liq ≤ U128_MAX) (hfee : p.feeRate ≤ FEE_RATE_HARD_LIMIT) (hamt : amount ≤ U64_MAX)
+    (haf : ∀ info, af = some info → InfoOK info)
+    (h : swap p ticks arrays amount limit isInput aToB now af fuel = .ok u) :
+    ∃ rewards fm s, CtxOK (swapCtxOf p arrays limit isInput aToB rewards) ∧
+      Path (swapCtxOf p arrays limit isInput aToB rewards) ps p.price (swapInit p ticks amount aToB fm) ∧
+      swapLoop (swapCtxOf p arrays limit isInput aToB rewards) fuel (swapInit p ticks amount aToB fm) none = .ok s ∧
+      swapFinish p amount limit isInput aToB now rewards s = .ok u := by
+  obtain ⟨g1, g2, g3, _⟩ := C03.swap_limit_guard _ _ _ _ _ _ _ _ _ _ _ h
+  obtain ⟨rewards, fm, s, hfm, hloop, hfin⟩ := swap_parts _ _ _ _ _ _ _ _ _ _ _ h
+  have htb : MIN_TICK_INDEX - 1 ≤ p.tick ∧ p.tick ≤ MAX_TICK_INDEX := by
+    have := min_le_max
+    rcases tp with ⟨a, b, _⟩ | ⟨a, _⟩ <;> omega
+  have hfm0 := new_ok aToB p.tick now p.feeRate af fm hfee haf htb.1 htb.2 hfm
+  refine ⟨rewards, fm, s, { ts := hts, consec := hseq.1, aligned := hseq.2, lim_lo := g1, lim_hi := g2 }, ?_, hloop, hfin⟩
+  exact
+    { liq := hliq, tf := tf, tp := tp,
+      lim := by
+        show if aToB = true then adjLimit limit aToB ≤ p.price ∧ p.price ≤ p.price else p.price ≤ p.price ∧ p.price ≤ adjLimit limit aToB
+        by_cases hd : aToB = true
+        · rw [if_pos hd] at g3 ⊢; exact ⟨Nat.le_of_lt g3, Nat.le_refl _⟩
+        · rw [if_neg hd] at g3 ⊢; exact ⟨Nat.le_refl _, Nat.le_of_lt g3⟩,
+      fm := hfm0, remU := hamt, liqU := hL }
+
 /-- **the swap as a whole, static or adaptive fee**: for ANY tick map and ANY set of positions that
     the tick map is consistent with, any amount, limit, mode and direction, over an aligned
     consecutive array sequence of any length: the resulting liquidity is again the sum of the
